@@ -8,6 +8,16 @@ Operations (plain lists):
   ["acq", mode]          mode "plain" | "rr" (the grant callback releases re-entrantly)
   ["run", beh]           beh "ret" | "raise" | "dfr" (returns a Deferred fired later)
                               | "dok" / "dbad" (returns an already fired Deferred)
+                         shapes whose result is NOT available when the function returns
+                         although the returned object may look finished:
+                              | "chain"    succeed(x).addCallback(lambda _: inner): .called is
+                                           true, the chain is paused on the unfired `inner`
+                              | "chainbad" fail(e).addErrback(lambda _: inner): same, via errback
+                              | "paused"   a Deferred that was pause()d and then fired: .called,
+                                           result held back until unpause() (= its "fire")
+                              | "dfr2"     unfired Deferred whose callback returns another unfired
+                                           Deferred: needs two fires (a failing first fire ends it)
+                              | "coro"     an `async def` function awaiting an unfired Deferred
   ["rel", j]             holder j (a granted, unreleased "plain" acquisition) releases
   ["cancel", j]          cancel the Deferred of item j (pending, granted, running or finished)
   ["fire", j, ok]        fire the Deferred returned by run j's function
@@ -25,7 +35,7 @@ META = dict(
     property="C06",
     level="exploration",
     technique="lockstep reference model (FIFO + token count) over op-list histories: breadth-first exploration of all enabled-op histories with hashing of the observed real state, plus Hypothesis random long histories",
-    level_text="Every transition out of every distinct reachable state (state = waiting list by item kind, tokens/locked, multiset of current holders, read from the real object) is executed for DeferredLock and DeferredSemaphore(1..3) up to the stated depth (quick: lock/sem1 6, sem2/sem3 7; thorough: 8, sem3 9; the depths actually run are in coverage.exhaustive_scopes) and compared step by step with the model; random histories of up to 60 operations cover deeper queues. Histories that reach an already visited state are not extended (their futures are those of the representative). Not a proof; exhaustive only up to the depth and under the state abstraction.",
+    level_text="Every transition out of every distinct reachable state (state = waiting list by item kind, tokens/locked, multiset of current holders, read from the real object) is executed for DeferredLock and DeferredSemaphore(1..3) up to the stated depth (quick: lock/sem1 6, sem2/sem3 7; thorough: 8, sem3 9; the depths actually run are in coverage.exhaustive_scopes) and compared step by step with the model; a second, shallower scope (quick depth 4, sem3 5; thorough 5, sem3 6) runs the same exploration over every function-result shape for run(): value, raise, unfired / already fired / already failed Deferred, fired-but-chained-on-a-pending-Deferred (via callback and via errback), paused-and-fired, two-stage, coroutine; random histories of up to 60 operations cover deeper queues. Histories that reach an already visited state are not extended (their futures are those of the representative). Not a proof; exhaustive only up to the depth and under the state abstraction.",
     level_note="Reference model written from the docstrings, trusted. The state abstraction assumes a primitive's future behaviour depends only on waiting/tokens/locked and the kinds of the live items. release() is observed through an instance-level wrapper. Cancelling a run() whose function Deferred is outstanding uses a canceller-less function Deferred. Misuse (release by a non-holder) is not generated.",
     design_ref="§5 C06",
     rule="case = (primitive, limit, op list). non-trivial = the history cancels a pending acquisition while another acquisition is pending; distinct by (primitive, limit, resolved op list).",
@@ -33,8 +43,11 @@ META = dict(
 
 ACQ_MODES = ("plain", "rr")
 RUN_BEHS = ("ret", "raise", "dfr")
-RUN_BEHS_ALL = ("ret", "raise", "dfr", "dok", "dbad")
-KIND_CODE = {"plain": "P", "rr": "R", "ret": "r", "raise": "x", "dfr": "d", "dok": "o", "dbad": "b"}
+RUN_LATER = ("dfr", "chain", "chainbad", "paused", "dfr2", "coro")    # result available only after fire(s)
+RUN_CALLED_UNAVAILABLE = ("chain", "chainbad", "paused")               # returned Deferred has .called set
+RUN_BEHS_ALL = ("ret", "raise", "dok", "dbad") + RUN_LATER
+KIND_CODE = {"plain": "P", "rr": "R", "ret": "r", "raise": "x", "dfr": "d", "dok": "o", "dbad": "b",
+             "chain": "c", "chainbad": "e", "paused": "p", "dfr2": "2", "coro": "a"}
 
 
 class HarnessFault(Exception):
@@ -80,8 +93,9 @@ class Model:
                 self._release()
         else:
             sub = it["sub"]
-            if sub == "dfr":
+            if sub in RUN_LATER:
                 it["state"] = "running"
+                it["stage"] = 2 if sub == "dfr2" else 1
             else:
                 it["state"] = "done"
                 # the function's result is available: release, then the run() Deferred fires
@@ -107,6 +121,9 @@ class Model:
             self.results[i] = ("fail", "CancelledError")
             return "pending"
         if it["state"] == "running":
+            if it["sub"] == "paused":
+                # Deferred.cancel() on a fired Deferred that waits on nothing does nothing
+                return "paused"
             it["state"] = "done"
             self._release()
             self.results[i] = ("fail", "CancelledError")
@@ -115,6 +132,9 @@ class Model:
 
     def fire(self, i, ok):
         it = self.items[i]
+        if it["stage"] == 2 and ok:
+            it["stage"] = 1          # outer fired; its callback now waits on the inner Deferred
+            return
         it["state"] = "done"
         self._release()
         self.results[i] = ("ok", ("fv", i)) if ok else ("fail", "HarnessFault")
@@ -215,15 +235,18 @@ class World:
 
     def run(self, beh):
         i = len(self.items)
-        item = dict(d=None, fd=None, kind="run", sub=beh, calls=0)
+        item = dict(d=None, fire=[], fail=False, kind="run", sub=beh, calls=0)
         self.items.append(item)
         defer = self.defer
 
-        def f():
+        def started():
             item["calls"] += 1
             if item["calls"] > 1:
                 self.problems.append(("run-function-called-twice", f"item {i}"))
             self._granted(i)
+
+        def f():
+            started()
             if beh == "ret":
                 return ("v", i)
             if beh == "raise":
@@ -232,19 +255,56 @@ class World:
                 return defer.succeed(("v", i))
             if beh == "dbad":
                 return defer.fail(HarnessFault(i))
-            item["fd"] = defer.Deferred()
-            return item["fd"]
-        d = self.p.run(f)
+            inner = defer.Deferred()
+            if beh == "dfr":
+                item["fire"] = [inner]
+                return inner
+            if beh == "chain":
+                item["fire"] = [inner]
+                return defer.succeed(("start", i)).addCallback(lambda _: inner)
+            if beh == "chainbad":
+                item["fire"] = [inner]
+                return defer.fail(HarnessFault(("start", i))).addErrback(lambda _: inner)
+            if beh == "dfr2":
+                outer = defer.Deferred()
+                outer.addCallback(lambda _: inner)
+                item["fire"] = [outer, inner]
+                return outer
+            if beh == "paused":
+                def outcome(v):
+                    if item["fail"]:
+                        raise HarnessFault(i)
+                    return v
+                held = defer.Deferred()
+                held.addCallback(outcome)
+                held.pause()
+                held.callback(("fv", i))
+                item["fire"] = [("unpause", held)]
+                return held
+            raise AssertionError(beh)
+
+        async def coro():
+            started()
+            inner = defer.Deferred()
+            item["fire"] = [inner]
+            return await inner
+
+        d = self.p.run(coro if beh == "coro" else f)
         item["d"] = d
         d.addBoth(self._record, i)
         return i
 
     def fire(self, i, ok):
-        fd = self.items[i]["fd"]
-        if ok:
-            fd.callback(("fv", i))
+        item = self.items[i]
+        target = item["fire"].pop(0)
+        if isinstance(target, tuple):
+            item["fail"] = not ok
+            target[1].unpause()
+        elif ok:
+            target.callback(("fv", i))
         else:
-            fd.errback(HarnessFault(i))
+            del item["fire"][:]
+            target.errback(HarnessFault(i))
 
     def index_of(self, d):
         for i, it in enumerate(self.items):
@@ -316,6 +376,11 @@ def _compare(ctx, case, w, m, step, op):
                 bad("cancelled-acquisition-granted", f"items {extra} were cancelled while pending but got the primitive")
             bad("granted-without-capacity", f"items {extra} granted, model says {states}; real {w.grant_log} model {m.grant_log}")
         bad("pending-not-granted-when-free", f"items {missing} should hold by now; real {w.grant_log} model {m.grant_log}")
+    if w.releases > m.releases and any(it["state"] == "running" for it in m.items) and (
+            op[0] == "run" and op[1] in RUN_LATER or op[0] == "fire" and m.items[op[1]]["state"] == "running"):
+        who = [i for i, it in enumerate(m.items) if it["state"] == "running"]
+        bad("run-released-before-function-result-available",
+            f"release() called {w.releases} times, model {m.releases}; run items {who} still wait for their function's result")
     if w.holders != m.holders():
         bad("holder-count", f"{w.holders} holders (grants minus release() calls), model {m.holders()}")
     if w.releases != m.releases:
@@ -351,6 +416,9 @@ def execute(ctx, case):
             continue
         resolved.append(op)
         name = op[0]
+        if name in ("acq", "run") and any(
+                it["state"] == "running" and it["sub"] in RUN_CALLED_UNAVAILABLE for it in m.items):
+            flags.add("request arrives while a holder's function returned a .called Deferred whose result is pending")
         if name == "acq":
             if m.free == 0:
                 flags.add("acquire while full")
@@ -359,6 +427,7 @@ def execute(ctx, case):
         elif name == "run":
             if m.free == 0:
                 flags.add("run while full")
+            flags.add("run shape " + op[1])
             m.new("run", op[1])
             w.run(op[1])
         elif name == "rel":
@@ -387,6 +456,8 @@ def execute(ctx, case):
                         flags.add("cancel pending not last in queue")
             elif what == "running":
                 flags.add("cancel run with function Deferred outstanding")
+            elif what == "paused":
+                flags.add("cancel run whose function Deferred is paused (no-op)")
             elif st_before == "holding":
                 flags.add("cancel granted acquisition")
             else:
@@ -394,7 +465,9 @@ def execute(ctx, case):
             w.items[op[1]]["d"].cancel()
         elif name == "fire":
             flags.add("fire ok" if op[2] else "fire fail")
-            if m.queue:
+            if m.items[op[1]]["stage"] == 2 and op[2]:
+                flags.add("fire first stage of a two-stage function Deferred")
+            elif m.queue:
                 flags.add("run completion hands over to a waiter")
             m.fire(op[1], op[2])
             w.fire(op[1], op[2])
@@ -425,11 +498,11 @@ def _full_key(w, m):
     live = []
     for i, it in enumerate(m.items):
         if it["state"] in ("holding", "running"):
-            live.append(KIND_CODE[it["sub"]])
+            live.append(KIND_CODE[it["sub"]] + ("'" if it.get("stage") == 2 else ""))
     return w.state_key() + (tuple(sorted(live)),)
 
 
-def _bfs(ctx, kind, limit, prefix, depth, collect=None):
+def _bfs(ctx, kind, limit, prefix, depth, run_behs=RUN_BEHS):
     """Breadth-first over enabled-op histories extending `prefix` by up to `depth`
     operations; a history reaching an already seen state is not extended.
     Returns the last frontier (list of (ops, enabled))."""
@@ -438,7 +511,7 @@ def _bfs(ctx, kind, limit, prefix, depth, collect=None):
     def body(c, case):
         w, m = run_case(c, case)
         out["key"] = _full_key(w, m)
-        out["enabled"] = m.enabled()
+        out["enabled"] = m.enabled(run_behs)
 
     def step(case):
         ctx.case()
@@ -470,13 +543,14 @@ def _bfs(ctx, kind, limit, prefix, depth, collect=None):
         frontier = nxt
     ctx.count("exhaustive: transitions executed", transitions)
     ctx.count("exhaustive: states expanded or reached (per shard)", len(seen))
-    ctx.extra[f"exhaustive transitions {kind}{limit}"] = ctx.extra.get(f"exhaustive transitions {kind}{limit}", 0) + transitions
+    tag = "" if run_behs is RUN_BEHS else " (all function-result shapes)"
+    ctx.extra[f"exhaustive transitions {kind}{limit}{tag}"] = ctx.extra.get(f"exhaustive transitions {kind}{limit}{tag}", 0) + transitions
     return frontier
 
 
 def _explore_shard(ctx, arg):
-    kind, limit, prefix, depth = arg
-    _bfs(ctx, kind, limit, prefix, depth)
+    kind, limit, prefix, depth, behs = arg
+    _bfs(ctx, kind, limit, prefix, depth, behs)
 
 
 SPLIT = 2   # the parent explores this many levels itself and shards on the frontier
@@ -484,16 +558,17 @@ SPLIT = 2   # the parent explores this many levels itself and shards on the fron
 
 def _explore_all(ctx, configs, parallel):
     shard_args = []
-    for kind, limit, depth in configs:
+    for kind, limit, depth, behs in configs:
         if not parallel:
-            _bfs(ctx, kind, limit, [], depth)
+            _bfs(ctx, kind, limit, [], depth, behs)
             continue
-        frontier = _bfs(ctx, kind, limit, [], SPLIT)
-        shard_args += [(kind, limit, ops, depth - SPLIT) for ops, _ in frontier]
+        frontier = _bfs(ctx, kind, limit, [], SPLIT, behs)
+        shard_args += [(kind, limit, ops, depth - SPLIT, behs) for ops, _ in frontier]
     if shard_args:
         # biggest sub-trees first (those that start with a full primitive)
         ctx.shards(_explore_shard, shard_args)
-    ctx.extra["exhaustive_scopes"] = [dict(primitive=k, limit=l, depth=d) for k, l, d in configs]
+    ctx.extra["exhaustive_scopes"] = [dict(primitive=k, limit=l, depth=d, run_functions=list(b))
+                                      for k, l, d, b in configs]
 
 
 # ---------------------------------------------------------------------------
@@ -505,7 +580,7 @@ def _history_strategy(max_ops):
         st.tuples(st.just("acq"), st.sampled_from(ACQ_MODES)).map(list),
         st.tuples(st.just("acq"), st.just("plain")).map(list),
         st.tuples(st.just("run"), st.sampled_from(RUN_BEHS_ALL)).map(list),
-        st.tuples(st.just("run"), st.just("dfr")).map(list),
+        st.tuples(st.just("run"), st.sampled_from(RUN_LATER)).map(list),
         st.tuples(st.just("rel*"), idx).map(list),
         st.tuples(st.just("cancel*"), st.sampled_from(["pending", "pending", "held", "running", "any"]), idx).map(list),
         st.tuples(st.just("fire*"), idx, st.booleans()).map(list),
@@ -523,8 +598,14 @@ def _random_shard(sub, i):
 
 
 def run(ctx):
-    configs = [("lock", 1, ctx.pick(6, 8)), ("sem", 1, ctx.pick(6, 8)),
-               ("sem", 2, ctx.pick(7, 8)), ("sem", 3, ctx.pick(7, 9))]
+    # scope A: deep, three run() function behaviours
+    configs = [("lock", 1, ctx.pick(6, 8), RUN_BEHS), ("sem", 1, ctx.pick(6, 8), RUN_BEHS),
+               ("sem", 2, ctx.pick(7, 8), RUN_BEHS), ("sem", 3, ctx.pick(7, 9), RUN_BEHS)]
+    # scope B: shallower, every function-result shape (what "the function's result
+    # is available" means for fired-but-chained, paused, two-stage and coroutine results)
+    dB = ctx.pick(4, 5)
+    configs += [("lock", 1, dB, RUN_BEHS_ALL), ("sem", 1, dB, RUN_BEHS_ALL),
+                ("sem", 2, dB, RUN_BEHS_ALL), ("sem", 3, dB + 1, RUN_BEHS_ALL)]
     try:
         _explore_all(ctx, configs, parallel=ctx.thorough)
     except PropertyViolation:
